@@ -452,7 +452,7 @@ def run_case(case, workdir):
     shared['workers'] = workers
     for w in workers:
         w.start()
-        if w.rep.get(timeout=180) != 'ready':
+        if w.rep.get(timeout=60) != 'ready':
             raise RuntimeError('worker did not start')
 
     def table():
@@ -462,7 +462,7 @@ def run_case(case, workdir):
 
     def ask(w, c):
         w.cmd.put(c)
-        return w.rep.get(timeout=180)
+        return w.rep.get(timeout=60)
 
     steps = []
     try:
